@@ -162,6 +162,34 @@ func TestC13(t *testing.T) {
 				c.c13Program(s, "examples", e, nBatch*2, nCLI*2, strings.Contains(e.Src, "{"))
 			}
 		})
+		// runs long enough (seconds of continuous printing) for anything timed or concurrent inside the
+		// interpreter to fire: three fresh processes, byte-identical and complete output
+		c.Sub("long-output", func(s *Sub) {
+			if c.Shard != 0 {
+				return
+			}
+			lines := 200000
+			if c.Thorough {
+				lines = 1000000
+			}
+			src := fmt.Sprintf("%s acc = 0;\n%s (%s i = 1; i <= %d; i = i + 1) {\n  acc = (acc * 31 + i) %% 1000003;\n  %s i;\n}\n%s \"checksum \" + acc;\n", bn.KwVar, bn.KwFor, bn.KwVar, lines, bn.KwPrint, bn.KwPrint)
+			var first string
+			for run := 0; run < 3; run++ {
+				cr := c.CLIScript(src, "", 300*time.Second)
+				c.Ev.Case("long-output", fmt.Sprintf("%d lines, run %d", lines, run), true, "long-output")
+				got := strings.Count(cr.Stdout, "\n")
+				if cr.TimedOut || cr.Status != 0 || got != lines+1 || !strings.HasPrefix(cr.Stdout, "1\n2\n3\n") || !strings.Contains(cr.Stdout[max(0, len(cr.Stdout)-40):], "checksum ") {
+					s.Violation(Replay{Check: "determinism", Sig: "long-output-incomplete", Source: src, Note: fmt.Sprintf("a program printing %d lines and a checksum printed %d lines (status %d)", lines, got, cr.Status), Observed: clip(cr.Stdout[max(0, len(cr.Stdout)-200):], 200)})
+					return
+				}
+				if run == 0 {
+					first = cr.Stdout
+				} else if cr.Stdout != first {
+					s.Violation(Replay{Check: "determinism", Sig: "long-output-differs", Source: src, Note: fmt.Sprintf("fresh process %d printed something else than fresh process 1", run+1)})
+					return
+				}
+			}
+		})
 		n := 250
 		if c.Thorough {
 			n = 1500
